@@ -123,6 +123,10 @@ inductive ChType where
 inductive Ret where
   | ok           -- nil
   | ise          -- an *acme.Error with status 500 (or any wrapped internal error)
+  | unauthorized -- an *acme.Error of type unauthorized (status 401) returned without any store
+  | notFound     -- a problem of type malformed (status 400) returned without any store: the store's own
+                 -- "… not found" (which `WrapErrorISE` passes through unchanged), or an unparsable
+                 -- Wire challenge payload
   deriving Repr, DecidableEq
 
 /-- package-level configuration variables -/
@@ -239,10 +243,26 @@ def serverName (value : Str) (ip : Option Str) : M Str :=
 
 def wellKnown : Str := s "/.well-known/acme-challenge/"
 
+/-! `(&url.URL{Scheme, Host, Path}).String()`: host and path are percent-escaped bytewise
+    (`net/url` `escape` with `encodeHost` / `encodePath`; upper-case hex). -/
+
+def isAlnum (c : Nat) : Bool := (48 ≤ c && c ≤ 57) || (65 ≤ c && c ≤ 90) || (97 ≤ c && c ≤ 122)
+
+/-- `!shouldEscape(c, encodeHost)`: unreserved, sub-delims and `: [ ] < > "` -/
+def hostKeep (c : Nat) : Bool := isAlnum c || (s "-_.~!$&'()*+,;=:[]<>\"").contains c
+
+/-- `!shouldEscape(c, encodePath)`: unreserved and `$ & + , / : ; = @` -/
+def pathKeep (c : Nat) : Bool := isAlnum c || (s "-_.~$&+,/:;=@").contains c
+
+def hexUpper (n : Nat) : Nat := if n < 10 then 48 + n else 55 + n
+
+def escapeWith (keep : Nat → Bool) (a : Str) : Str :=
+  a.flatMap fun c => if keep c then [c] else [37, hexUpper (c / 16), hexUpper (c % 16)]
+
 /-- the URL handed to `vc.Get` -/
 def http01URL (cfg : Cfg) (ch : Ch) : Str :=
-  s "http://" ++ http01Host cfg ch.value ch.ip ++
-    (if cfg.portHTTP = 0 then [] else [58] ++ itoa cfg.portHTTP) ++ wellKnown ++ ch.token
+  s "http://" ++ escapeWith hostKeep (http01Host cfg ch.value ch.ip ++
+    (if cfg.portHTTP = 0 then [] else [58] ++ itoa cfg.portHTTP)) ++ wellKnown ++ escapeWith pathKeep ch.token
 
 /-- the name handed to `vc.LookupTxt` -/
 def dns01Name (cfg : Cfg) (ch : Ch) : Str := dns01Host cfg (trimPrefix (s "*.") ch.value)
@@ -336,6 +356,21 @@ def extLoop (dbOk : Bool) (ch : Ch) (digest : Str) (t : Target) : List Ext → B
     | .acmeObsolete => extLoop dbOk ch digest t rest true
     | .other => extLoop dbOk ch digest t rest obsolete
 
+/-- `strings.EqualFold(d, v)` for an ASCII `d` (a parsed dNSName is an IA5String) and arbitrary
+    bytes `v`: rune by rune, ASCII letters match ignoring case, and the only non-ASCII runes whose
+    simple case folding reaches an ASCII letter are U+212A KELVIN SIGN (k) and U+017F LATIN SMALL
+    LETTER LONG S (s); any other non-ASCII rune, and any invalid UTF-8 byte (`RuneError`), matches
+    no ASCII byte. -/
+def equalFoldAscii : Str → Str → Bool
+  | [], [] => true
+  | c :: ds, b :: vs =>
+    if b < 128 then lo c == lo b && equalFoldAscii ds vs
+    else match b, vs with
+      | 0xE2, 0x84 :: 0xAA :: vs' => lo c == 107 && equalFoldAscii ds vs'
+      | 0xC5, 0xBF :: vs' => lo c == 115 && equalFoldAscii ds vs'
+      | _, _ => false
+  | _, _ => false
+
 def leafNameOk (ch : Ch) (l : Leaf) : Bool :=
   if l.dns.length = 0 then
     match l.ips, ch.ip with
@@ -343,7 +378,7 @@ def leafNameOk (ch : Ch) (l : Leaf) : Bool :=
     | _, _ => false          -- `IP.Equal(nil)` is false for a 4/16-byte address
   else
     match l.dns with
-    | [d] => foldEq d ch.value
+    | [d] => equalFoldAscii d ch.value
     | _ => false
 
 def tlsalpn01Validate (h : Hash) (cfg : Cfg) (dbOk : Bool) (ch : Ch) (r : DialRes) : M Outcome := do
@@ -493,6 +528,8 @@ inductive FmtFacts where
     code looks at it -/
 structure DaIn where
   authzOk : Bool         -- db.GetAuthorization succeeded
+  authzMissing : Bool    -- … it failed because no such authorization exists (only read when authzOk = false)
+  authzOtherAccount : Bool -- the loaded authorization belongs to another account than the challenge (fix 365cae8)
   jsonOk : Bool          -- json.Unmarshal(payload)
   errField : Bool        -- payload.error ≠ ""
   b64Ok : Bool           -- base64url decoding of attObj
@@ -518,7 +555,7 @@ def daApple (h : Hash) (dbOk : Bool) (ch : Ch) (i : DaIn) (f : AppleFacts) : M O
   | .nilErr => .crash
   | .bad e => .val (daBad dbOk ch e)
   | .data d =>
-    if d.nonce.length ≠ 0 ∧ d.nonce ≠ h.raw ch.token then .val (daBad dbOk ch .badAttestationStatement)
+    if d.nonce ≠ h.raw ch.token then .val (daBad dbOk ch .badAttestationStatement)   -- unconditional since fix 9ce0826
     else if d.udid ≠ ch.value ∧ d.serial ≠ ch.value then .val (daBad dbOk ch .badAttestationStatement)
     else .val (daFinish dbOk ch i)
 
@@ -551,7 +588,8 @@ def daCore (h : Hash) (dbOk : Bool) (ch : Ch) (i : DaIn) : M Outcome :=
   | _, _ => .val (daBad dbOk ch .badAttestationStatement)
 
 def deviceAttest01Validate (h : Hash) (dbOk : Bool) (ch : Ch) (i : DaIn) : M Outcome :=
-  if !i.authzOk then .val (noWrite ch .none)
+  if !i.authzOk then .val { noWrite ch .none with ret := if i.authzMissing then .notFound else .ise }
+  else if i.authzOtherAccount then .val { noWrite ch .none with ret := .unauthorized }
   else if !i.jsonOk then .val (noWrite ch .none)
   else if i.errField then .val (daBad dbOk ch .rejectedIdentifier)
   else if !i.b64Ok then .val (daBad dbOk ch .badAttestationStatement)
@@ -561,6 +599,127 @@ def deviceAttest01Validate (h : Hash) (dbOk : Bool) (ch : Ch) (i : DaIn) : M Out
   else if !i.enabled then .val (daBad dbOk ch .badAttestationStatement)
   else daCore h dbOk ch i
 
+
+/-! ### wire-dpop-01 and wire-oidc-01
+
+  `wireDPOP01Validate` / `parseAndVerifyWireAccessToken` and `wireOIDC01Validate` /
+  `validateWireOIDCClaims`.  Every refusal of the token checks stores the same problem
+  (invalid, rejectedIdentifier), so the checks are modelled as one conjunction over extracted
+  facts: parsing and signature verification are input bits, every *comparison* is made here. -/
+
+/-- one compact JWS as the validators look at it -/
+structure Jws where
+  parses : Bool          -- jose.ParseSigned
+  oneHeader : Bool       -- len(Headers) == 1
+  kid : Option Str       -- Headers[0].KeyID, or KeyToID(embedded JWK) when that is empty; none = derivation failed
+  sigOk : Bool           -- Claims(key, …): the signature verifies under the key the validator uses
+  timeOk : Bool          -- the exp / nbf / iat part of ValidateWithLeeway(now, 1 min)
+  expTooFar : Bool       -- exp later than now + 1 h
+  deriving Repr, DecidableEq
+
+structure DpopFacts where
+  provOk : Bool          -- provisioner with Wire options and a linker are in the context
+  payloadOk : Bool       -- json.Unmarshal(payload)
+  idOk : Bool            -- wire.ParseDeviceID(ch.Value) and wire.ParseClientID succeed
+  targetOk : Bool        -- DPOP target template evaluates
+  -- expected values, computed by the validator from its own state
+  serverKid : Option Str -- KeyToID(configured wire-server key)
+  accountKid : Str       -- accountJWK.KeyID (the requesting account's key id)
+  issuer : Str           -- evaluated DPoP target
+  audience : Str         -- linker URL of this challenge: …/challenge/<authz id>/<challenge id>
+  clientId : Str         -- from the stored identifier value
+  handle : Str
+  name : Str
+  -- the access token (signed by wire-server)
+  tok : Jws              -- sigOk: under the *configured* wire-server key
+  atIss : Str
+  atAud : List Str
+  atChal : Str
+  atCnfKid : Str
+  atClientId : Str
+  atScope : Str
+  atNonce : Str
+  -- the DPoP proof inside it (signed by the client)
+  pf : Jws               -- sigOk: under the *requesting account's* public key
+  pfAud : List Str
+  pfHtu : Str
+  pfSub : Str
+  pfNonce : Str
+  pfChal : Str
+  mapOk : Bool           -- second Claims() into a map
+  mapChal : Option Str   -- claim "chal" when it is a string
+  mapHandle : Option Str
+  mapName : Option Str
+  -- afterwards
+  ordersOk : Bool        -- GetAllOrdersByAccountID succeeded and returned at least one order
+  tokenStoreOk : Bool    -- CreateDpopToken
+
+/-- `parseAndVerifyWireAccessToken` returns no error -/
+def dpopTokenOk (ch : Ch) (f : DpopFacts) : Bool :=
+  f.tok.parses && f.tok.oneHeader && f.serverKid.isSome && f.tok.kid.isSome && f.tok.kid == f.serverKid && f.tok.sigOk &&
+  f.tok.timeOk && f.atIss == f.issuer && f.atAud.contains f.audience &&
+  f.atChal != [] && f.atCnfKid != [] && f.atCnfKid == f.accountKid && f.atClientId == f.clientId &&
+  !f.tok.expTooFar && f.atScope == s "wire_client_id" &&
+  f.pf.parses && f.pf.oneHeader && f.pf.kid == some f.accountKid && f.pf.sigOk &&
+  f.pf.timeOk && f.pfAud.contains f.audience &&
+  f.pfHtu != [] && f.pfHtu == f.issuer && !f.pf.expTooFar && f.pfSub == f.clientId &&
+  f.pfNonce != [] && f.pfNonce == f.atNonce && f.pfChal != [] && f.pfChal == f.atChal &&
+  f.mapOk && f.mapChal.isSome && f.mapChal != some [] && f.mapChal == some ch.token &&
+  f.mapHandle.isSome && f.mapHandle != some [] && f.mapHandle == some f.handle &&
+  f.mapName.isSome && f.mapName != some [] && f.mapName == some f.name
+
+/-- both Wire validators end alike: the challenge is stored valid *before* the account's orders are
+    looked up and the token is kept; a failure there returns an internal error -/
+def wireFinish (dbOk : Bool) (ch : Ch) (afterOk : Bool) : Outcome :=
+  let o := store dbOk ch .valid .none .none
+  if o.ret = .ok ∧ !afterOk then { o with ret := .ise } else o
+
+def wireDpop01Validate (dbOk : Bool) (ch : Ch) (f : DpopFacts) : Outcome :=
+  if !f.provOk then noWrite ch .none
+  else if !f.payloadOk then { noWrite ch .none with ret := .notFound }
+  else if !f.idOk then noWrite ch .none
+  else if !f.targetOk then noWrite ch .none
+  else if !dpopTokenOk ch f then storeError dbOk ch true .rejectedIdentifier .none
+  else wireFinish dbOk ch (f.ordersOk && f.tokenStoreOk)
+
+structure OidcFacts where
+  provOk : Bool
+  payloadOk : Bool
+  idOk : Bool            -- wire.ParseUserID(ch.Value)
+  verifierOk : Bool      -- an OIDC verifier is available
+  verifyOk : Bool        -- verifier.Verify: signature under the IdP's keys, issuer, client id, expiry
+  claimsOk : Bool        -- idToken.Claims into the struct
+  keyauth : Str          -- claim "keyauth"
+  acmeAud : Str          -- claim "acme_aud"
+  audience : Str         -- linker URL of this challenge
+  transformOk : Bool     -- claims into a map and the transformation template
+  tName : Option Str     -- transformed["name"] when present and a string ([] for a non-string is not produced: none)
+  tHandle : Option Str   -- transformed["preferred_username"]
+  name : Str             -- from the stored identifier value
+  handle : Str
+  ordersOk : Bool
+  tokenStoreOk : Bool
+
+/-- the checks before the key authorization is computed -/
+def oidcPre (f : OidcFacts) : Bool := f.verifyOk && f.claimsOk
+
+/-- the comparisons: `keyauth` claim, `acme_aud` claim, transformed name and handle -/
+def oidcPost (ch : Ch) (th : Str) (f : OidcFacts) : Bool :=
+  keyAuth ch.token th == f.keyauth && f.acmeAud == f.audience && f.transformOk &&
+  f.tName == some f.name && f.tHandle == some f.handle
+
+def wireOidc01Validate (dbOk : Bool) (ch : Ch) (f : OidcFacts) : Outcome :=
+  if !f.provOk then noWrite ch .none
+  else if !f.payloadOk then { noWrite ch .none with ret := .notFound }
+  else if !f.idOk then noWrite ch .none
+  else if !f.verifierOk then noWrite ch .none
+  else if !oidcPre f then storeError dbOk ch true .rejectedIdentifier .none
+  else match ch.thumb with
+    | none => noWrite ch .none
+    | some th =>
+      if !oidcPost ch th f then storeError dbOk ch true .rejectedIdentifier .none
+      else wireFinish dbOk ch (f.ordersOk && f.tokenStoreOk)
+
 /-! ### Challenge.Validate -/
 
 /-- the response of the outside world to the one request a validator makes -/
@@ -569,12 +728,14 @@ inductive World where
   | txt (r : TxtResp)
   | tls (r : DialRes)
   | attest (i : DaIn)
+  | dpop (f : DpopFacts)
+  | oidc (f : OidcFacts)
   | nothing
 
 inductive VOut where
   | done (o : Outcome)
   | crash
-  | unmodelled        -- wire challenges
+  | unmodelled        -- (no longer produced: every dispatched type is modelled)
   | mismatch          -- driver only: the world value does not fit the challenge type
 
 def validate (h : Hash) (cfg : Cfg) (dbOk : Bool) (ch : Ch) (w : World) : VOut :=
@@ -590,8 +751,8 @@ def validate (h : Hash) (cfg : Cfg) (dbOk : Bool) (ch : Ch) (w : World) : VOut :
       match deviceAttest01Validate h dbOk ch i with
       | .val o => .done o
       | .crash => .crash
-    | .wireOidc01, _ => .unmodelled
-    | .wireDpop01, _ => .unmodelled
+    | .wireOidc01, .oidc f => .done (wireOidc01Validate dbOk ch f)
+    | .wireDpop01, .dpop f => .done (wireDpop01Validate dbOk ch f)
     | .unknown, _ => .done (noWrite ch .none)
     | _, _ => .mismatch
 
@@ -626,6 +787,65 @@ def authzUpdateStatus (az : AzRec) (challengeValid : Bool) : Status :=
   | .pending => if az.expired then .invalid else if challengeValid then .valid else .pending
   | .other => .other
 
+
+/-! ### the request handler `api.GetChallenge` (acme/api/handler.go) and the authorization poll -/
+
+/-- which authorization the `{authzID}` URL parameter names, relative to the challenge `{chID}` names
+    (the store looks the challenge up by `chID` alone) -/
+inductive AzUrl where
+  | own        -- the authorization that lists this challenge
+  | foreign    -- some other existing authorization of the same account (its own challenges are not this one)
+  | foreignOther -- an existing authorization of another account
+  | missing    -- no such authorization
+  deriving Repr, DecidableEq
+
+structure HReq where
+  chExists : Bool      -- db.GetChallenge(chID) finds a challenge
+  owner : Bool         -- acc.ID == ch.AccountID for the account that signed the request
+  azUrl : AzUrl
+  deriving Repr, DecidableEq
+
+inductive HCode where
+  | ok            -- 200, challenge object in the body
+  | unauthorized  -- 401
+  | notFound      -- the store's "challenge not found" problem (400 malformed)
+  | ise           -- 500
+  deriving Repr, DecidableEq
+
+structure HOut where
+  code : HCode
+  effect : Outcome     -- stored challenge afterwards, request made, fingerprint written (into the URL's authorization)
+  deriving Repr, DecidableEq
+
+/-- nothing happened: stored challenge untouched, no request made -/
+def untouched (ch : Ch) : Outcome := ⟨ch.status, ch.err, .ok, .none, false⟩
+
+/-- the world as `deviceAttest01Validate` sees it when the authorization id comes from the URL:
+    `db.GetAuthorization` succeeds iff the URL names an existing authorization -/
+def worldVia (azUrl : AzUrl) : World → World
+  | .attest i =>
+    match azUrl with
+    | .missing => .attest { i with authzOk := false, authzMissing := true }
+    | .foreignOther => .attest { i with authzOtherAccount := true }
+    | _ => .attest i
+  | w => w
+
+/-- `api.GetChallenge`: the account must own the challenge; the JWK handed to `Validate` is the
+    requesting account's key (`ch.thumb` is its thumbprint); `ch.AuthorizationID` := URL parameter. -/
+def getChallenge (h : Hash) (cfg : Cfg) (dbOk : Bool) (ch : Ch) (w : World) (req : HReq) : M HOut :=
+  if !req.chExists then .val ⟨.notFound, untouched ch⟩
+  else if !req.owner then .val ⟨.unauthorized, untouched ch⟩
+  else match validate h cfg dbOk ch (worldVia req.azUrl w) with
+    | .done o => .val ⟨match o.ret with | .ok => .ok | .ise => .ise | .notFound => .notFound | .unauthorized => .unauthorized, o⟩
+    | .crash => .crash
+    | .unmodelled => .val ⟨.ise, untouched ch⟩      -- not modelled (wire): never produced by the harness
+    | .mismatch => .val ⟨.ise, untouched ch⟩
+
+/-- status of the authorization that owns the challenge after `api.GetAuthorization` (which runs
+    `UpdateStatus`), and of the authorization named by the URL when it is another one -/
+def pollOwn (own : AzRec) (e : Outcome) : Status := authzUpdateStatus own (decide (e.status = .valid))
+def pollForeign (foreign : AzRec) : Status := authzUpdateStatus foreign false
+
 /-! ### challenge types offered for an identifier (acme/api/order.go) -/
 
 inductive IdType where
@@ -651,5 +871,74 @@ def challengeTypes (t : IdType) (wildcard : Bool) : List ChType :=
 def newAuthorization (t : IdType) (raw : Str) : Str × Bool × List ChType :=
   let (v, w) := trimIfWildcard raw
   (v, w, challengeTypes t w)
+
+/-! ### facts about the source text, re-derived with go/ast on every run (stage `src`)
+
+  The harness `harness/cmd/c11_src` parses `$VERIF_REPO/acme` and `$VERIF_REPO/acme/api` and prints
+  these facts; the driver prints the tables below (op=src); `./check` compares them literally.  The
+  `src_*` theorems say what the tables mean for the model. -/
+namespace Src
+
+/-- every assignment `<x>.Status = <v>` in package acme with `v` one of the object statuses
+    valid / invalid / ready / pending / processing: (function, variable, value) -/
+def statusWriters : List (String × String × String) :=
+  [("Authorization.UpdateStatus", "az", "StatusInvalid"), ("Authorization.UpdateStatus", "az", "StatusValid"),
+   ("Order.Finalize", "o", "StatusValid"), ("Order.UpdateStatus", "o", "StatusInvalid"), ("Order.UpdateStatus", "o", "StatusReady"),
+   ("deviceAttest01Validate", "ch", "StatusValid"), ("dns01Validate", "ch", "StatusValid"), ("http01Validate", "ch", "StatusValid"),
+   ("storeError", "ch", "StatusInvalid"), ("tlsalpn01Validate", "ch", "StatusValid"),
+   ("wireDPOP01Validate", "ch", "StatusValid"), ("wireOIDC01Validate", "ch", "StatusValid")]
+
+/-- `.Status` assignments in package acme/api -/
+def apiStatusWriters : List (String × String × String) := []
+
+/-- functions of package acme calling `db.UpdateAuthorization` / `db.UpdateChallenge` -/
+def authzUpdaters : List String := ["Authorization.UpdateStatus", "deviceAttest01Validate"]
+def apiAuthzUpdaters : List String := []
+def challUpdaters : List String :=
+  ["deviceAttest01Validate", "dns01Validate", "http01Validate", "storeError", "tlsalpn01Validate",
+   "wireDPOP01Validate", "wireOIDC01Validate"]
+
+/-- `Challenge.Validate`: the statement before the switch, and case constant ↦ function returned -/
+def dispatchGuard : String := "pending-only"
+def dispatch : List (String × String) :=
+  [("HTTP01", "http01Validate"), ("DNS01", "dns01Validate"), ("TLSALPN01", "tlsalpn01Validate"),
+   ("DEVICEATTEST01", "deviceAttest01Validate"), ("WIREOIDC01", "wireOIDC01Validate"),
+   ("WIREDPOP01", "wireDPOP01Validate"), ("default", "NewErrorISE")]
+
+/-- `api.challengeTypes`: identifier type ↦ (base list, optional guarded append) -/
+def types : List (String × List String × Option (String × List String)) :=
+  [("acme.IP", ["acme.HTTP01", "acme.TLSALPN01"], none),
+   ("acme.DNS", ["acme.DNS01"], some ("!az.Wildcard", ["acme.HTTP01", "acme.TLSALPN01"])),
+   ("acme.PermanentIdentifier", ["acme.DEVICEATTEST01"], none),
+   ("acme.WireUser", ["acme.WIREOIDC01"], none),
+   ("acme.WireDevice", ["acme.WIREDPOP01"], none),
+   ("default", [], none)]
+
+/-- `api.GetChallenge`: top-level order and data flow -/
+def handlerOrder : String :=
+  "ownership-then-validate;validate(ctx+db+jwk+payload.value);jwk=jwkFromContext();jwk-assignments=1;ch=db.GetChallenge;ch.AuthorizationID=azID;azID=chi.URLParam:authzID"
+
+end Src
+
+/-- names: the Go constant of a challenge type, the validator `validate` models for it -/
+def ChType.goConst : ChType → String
+  | .http01 => "HTTP01" | .dns01 => "DNS01" | .tlsalpn01 => "TLSALPN01" | .deviceAttest01 => "DEVICEATTEST01"
+  | .wireOidc01 => "WIREOIDC01" | .wireDpop01 => "WIREDPOP01" | .unknown => "default"
+
+def ChType.goValidator : ChType → String
+  | .http01 => "http01Validate" | .dns01 => "dns01Validate" | .tlsalpn01 => "tlsalpn01Validate"
+  | .deviceAttest01 => "deviceAttest01Validate" | .wireOidc01 => "wireOIDC01Validate"
+  | .wireDpop01 => "wireDPOP01Validate" | .unknown => "NewErrorISE"
+
+def IdType.goConst : IdType → String
+  | .ip => "acme.IP" | .dns => "acme.DNS" | .permanentIdentifier => "acme.PermanentIdentifier"
+  | .wireUser => "acme.WireUser" | .wireDevice => "acme.WireDevice" | .other => "default"
+
+/-- `challengeTypes` read off the source table -/
+def Src.typesFor (t : String) (wildcard : Bool) : List String :=
+  match Src.types.find? (·.1 = t) with
+  | some (_, base, some (_, extra)) => if !wildcard then base ++ extra else base
+  | some (_, base, none) => base
+  | none => []
 
 end Verif.AcmeChallenge
